@@ -1,6 +1,297 @@
-//! `vh glyphset`: see /verif/docs/MODULE_CONTRACT.md
+//! `vh glyphset`: compile a source (or read a font) and project what property C06 talks about.
+//!
+//! stdin: one JSON request per line. A request is a `CompileReq` (see compile.rs: src, flags, no_flags, tag,
+//! out, ...) or `{"tag":..,"font":"<path to a compiled font>"}`. stdout: one JSON line per request:
+//!
+//! {"tag","outcome":"ok"|"error"|"panic"|"unreadable","message",
+//!  "num_glyphs": maxp.numGlyphs,
+//!  "post": {"version": 0x00020000, "num_glyphs": n, "names": [...]}   raw post table (no gidN fallback)
+//!  "advances": [hmtx advance per gid]       (the check gives every source glyph its own advance, so this is
+//!                                            the identity of a glyph independent of its post name)
+//!  "cmap": [{"platform","encoding","format","map":[[cp,gid],...]}]    every subtable separately
+//!  "glyf": [{"kind":"empty"|"simple"|"composite","comps":[gid,...]}]  per gid
+//!  "gsub": [{"type":t,"cov":[gid..],"single":[[gid,gid]..]}]          per lookup subtable
+//!  "gpos": [{"type":t,"cov":[gid..],"pairs":[[gid,gid,xadv]..]}]      per lookup subtable
+//!  "gdef_classes": [[gid,class]..]}
+//!
+//! Nothing is interpreted here: the comparison with the expectation computed by spec/GlyphSet.tla is done by
+//! checks/c06.py.
 
-pub fn run(_args: &[String]) -> i32 {
-    eprintln!("vh glyphset: not implemented yet");
-    2
+use std::io::{BufRead, Write};
+
+use serde_json::{Map, Value, json};
+use write_fonts::read::{
+    FontRef, TableProvider,
+    tables::{
+        cmap::CmapSubtable,
+        glyf::Glyph,
+        gpos::{PairPos, PositionSubtables},
+        gsub::{SingleSubst, SubstitutionSubtables},
+        layout::CoverageTable,
+    },
+    types::GlyphId,
+};
+
+use crate::compile::{CompileReq, compile, panic_message};
+
+fn cov_gids(cov: &CoverageTable) -> Vec<u32> {
+    cov.iter().map(|g| g.to_u32()).collect()
+}
+
+fn project_cmap(font: &FontRef) -> Result<Value, String> {
+    let cmap = font.cmap().map_err(|e| format!("cmap: {e}"))?;
+    let mut out = Vec::new();
+    for rec in cmap.encoding_records() {
+        let st = rec
+            .subtable(cmap.offset_data())
+            .map_err(|e| format!("cmap subtable: {e}"))?;
+        let (format, map): (u16, Vec<(u32, u32)>) = match &st {
+            CmapSubtable::Format4(t) => (4, t.iter().map(|(c, g)| (c, g.to_u32())).collect()),
+            CmapSubtable::Format12(t) => (12, t.iter().map(|(c, g)| (c, g.to_u32())).collect()),
+            other => (other.format(), vec![]),
+        };
+        out.push(json!({"platform": rec.platform_id() as u16, "encoding": rec.encoding_id(),
+            "format": format, "map": map}));
+    }
+    Ok(json!(out))
+}
+
+fn project_post(font: &FontRef) -> Result<Value, String> {
+    let post = font.post().map_err(|e| format!("post: {e}"))?;
+    let version = post.version().to_major_minor();
+    let n = post.num_glyphs().unwrap_or(0);
+    let mut names = Vec::new();
+    for gid in 0..n {
+        names.push(post.glyph_name(write_fonts::types::GlyphId16::new(gid)).map(|s| s.to_string()));
+    }
+    Ok(json!({"version": [version.0, version.1], "num_glyphs": n, "names": names}))
+}
+
+fn project_glyf(font: &FontRef, ng: u32) -> Result<Value, String> {
+    let loca = font.loca(None).map_err(|e| format!("loca: {e}"))?;
+    let glyf = font.glyf().map_err(|e| format!("glyf: {e}"))?;
+    let mut v = Vec::new();
+    for gid in 0..ng {
+        v.push(match loca.get_glyf(GlyphId::new(gid), &glyf) {
+            Ok(None) => json!({"kind": "empty", "comps": []}),
+            Ok(Some(Glyph::Simple(_))) => json!({"kind": "simple", "comps": []}),
+            Ok(Some(Glyph::Composite(c))) => {
+                let comps: Vec<u32> = c.components().map(|k| k.glyph.to_u32()).collect();
+                json!({"kind": "composite", "comps": comps})
+            }
+            Err(e) => json!({"kind": "error", "message": e.to_string(), "comps": []}),
+        });
+    }
+    Ok(json!(v))
+}
+
+fn project_gsub(font: &FontRef) -> Result<Value, String> {
+    let Ok(gsub) = font.gsub() else {
+        return Ok(Value::Null);
+    };
+    let mut out = Vec::new();
+    let llist = gsub.lookup_list().map_err(|e| format!("GSUB lookup list: {e}"))?;
+    for (i, lk) in llist.lookups().iter().enumerate() {
+        let lk = lk.map_err(|e| format!("GSUB lookup {i}: {e}"))?;
+        let ty = lk.lookup_type();
+        let subtables = lk.subtables().map_err(|e| format!("GSUB lookup {i}: {e}"))?;
+        match subtables {
+            SubstitutionSubtables::Single(subs) => {
+                for st in subs.iter() {
+                    let st = st.map_err(|e| format!("GSUB lookup {i} subtable: {e}"))?;
+                    let mut single: Vec<(u32, u32)> = Vec::new();
+                    let cov = match st {
+                        SingleSubst::Format1(t) => {
+                            let cov = t.coverage().map_err(|e| format!("coverage: {e}"))?;
+                            let d = t.delta_glyph_id() as i32;
+                            for g in cov.iter() {
+                                single.push((g.to_u32(), (g.to_u32() as i32 + d).rem_euclid(65536) as u32));
+                            }
+                            cov_gids(&cov)
+                        }
+                        SingleSubst::Format2(t) => {
+                            let cov = t.coverage().map_err(|e| format!("coverage: {e}"))?;
+                            for (g, s) in cov.iter().zip(t.substitute_glyph_ids()) {
+                                single.push((g.to_u32(), s.get().to_u32()));
+                            }
+                            cov_gids(&cov)
+                        }
+                    };
+                    out.push(json!({"lookup": i, "type": ty, "cov": cov, "single": single}));
+                }
+            }
+            _ => {
+                // the check only generates single substitutions; anything else is reported as is
+                out.push(json!({"lookup": i, "type": ty, "cov": Value::Null, "single": []}));
+            }
+        }
+    }
+    Ok(json!(out))
+}
+
+fn project_gpos(font: &FontRef, ng: u32) -> Result<Value, String> {
+    let Ok(gpos) = font.gpos() else {
+        return Ok(Value::Null);
+    };
+    let mut out = Vec::new();
+    let llist = gpos.lookup_list().map_err(|e| format!("GPOS lookup list: {e}"))?;
+    for (i, lk) in llist.lookups().iter().enumerate() {
+        let lk = lk.map_err(|e| format!("GPOS lookup {i}: {e}"))?;
+        let ty = lk.lookup_type();
+        let subtables = lk.subtables().map_err(|e| format!("GPOS lookup {i}: {e}"))?;
+        match subtables {
+            PositionSubtables::Pair(subs) => {
+                for st in subs.iter() {
+                    let st = st.map_err(|e| format!("GPOS lookup {i} subtable: {e}"))?;
+                    let mut pairs: Vec<(u32, u32, i32)> = Vec::new();
+                    let cov = match st {
+                        PairPos::Format1(t) => {
+                            let cov = t.coverage().map_err(|e| format!("coverage: {e}"))?;
+                            for (g, ps) in cov.iter().zip(t.pair_sets().iter()) {
+                                let ps = ps.map_err(|e| format!("pair set: {e}"))?;
+                                for rec in ps.pair_value_records().iter() {
+                                    let rec = rec.map_err(|e| format!("pair record: {e}"))?;
+                                    pairs.push((
+                                        g.to_u32(),
+                                        rec.second_glyph().to_u32(),
+                                        rec.value_record1().x_advance().unwrap_or(0) as i32,
+                                    ));
+                                }
+                            }
+                            cov_gids(&cov)
+                        }
+                        PairPos::Format2(t) => {
+                            let cov = t.coverage().map_err(|e| format!("coverage: {e}"))?;
+                            let cd1 = t.class_def1().map_err(|e| format!("classdef1: {e}"))?;
+                            let cd2 = t.class_def2().map_err(|e| format!("classdef2: {e}"))?;
+                            let recs = t.class1_records();
+                            for g in cov.iter() {
+                                let c1 = cd1.get(g) as usize;
+                                let Ok(c1rec) = recs.get(c1) else { continue };
+                                for g2 in 0..ng {
+                                    let c2 = cd2.get(GlyphId::new(g2)) as usize;
+                                    if let Ok(c2rec) = c1rec.class2_records().get(c2) {
+                                        let xadv = c2rec.value_record1().x_advance().unwrap_or(0) as i32;
+                                        if xadv != 0 {
+                                            pairs.push((g.to_u32(), g2, xadv));
+                                        }
+                                    }
+                                }
+                            }
+                            cov_gids(&cov)
+                        }
+                    };
+                    out.push(json!({"lookup": i, "type": ty, "cov": cov, "pairs": pairs}));
+                }
+            }
+            _ => out.push(json!({"lookup": i, "type": ty, "cov": Value::Null, "pairs": []})),
+        }
+    }
+    Ok(json!(out))
+}
+
+fn project_font(data: &[u8]) -> Result<Map<String, Value>, String> {
+    let font = FontRef::new(data).map_err(|e| format!("cannot parse font: {e}"))?;
+    let mut out = Map::new();
+    let ng = font.maxp().map_err(|e| format!("maxp: {e}"))?.num_glyphs() as u32;
+    out.insert("num_glyphs".into(), json!(ng));
+    out.insert("post".into(), project_post(&font)?);
+    let hmtx = font.hmtx().map_err(|e| format!("hmtx: {e}"))?;
+    let adv: Vec<Option<u16>> = (0..ng).map(|g| hmtx.advance(GlyphId::new(g))).collect();
+    out.insert("advances".into(), json!(adv));
+    out.insert("cmap".into(), project_cmap(&font)?);
+    out.insert("glyf".into(), project_glyf(&font, ng)?);
+    out.insert("gsub".into(), project_gsub(&font)?);
+    out.insert("gpos".into(), project_gpos(&font, ng)?);
+    let mut classes: Vec<(u32, u16)> = Vec::new();
+    if let Ok(gdef) = font.gdef()
+        && let Some(Ok(cd)) = gdef.glyph_class_def()
+    {
+        for g in 0..ng {
+            let c = cd.get(GlyphId::new(g));
+            if c != 0 {
+                classes.push((g, c));
+            }
+        }
+    }
+    out.insert("gdef_classes".into(), json!(classes));
+    Ok(out)
+}
+
+fn handle(line: &str) -> Value {
+    let raw: Value = match serde_json::from_str(line) {
+        Ok(v) => v,
+        Err(e) => return json!({"outcome": "bad_request", "message": e.to_string()}),
+    };
+    let tag = raw.get("tag").and_then(|t| t.as_str()).unwrap_or("").to_string();
+    let mut out = Map::new();
+    out.insert("tag".into(), json!(tag));
+    let bytes: Vec<u8> = if let Some(path) = raw.get("font").and_then(|f| f.as_str()) {
+        match std::fs::read(path) {
+            Ok(b) => {
+                out.insert("outcome".into(), json!("ok"));
+                out.insert("message".into(), json!(""));
+                b
+            }
+            Err(e) => {
+                out.insert("outcome".into(), json!("unreadable"));
+                out.insert("message".into(), json!(e.to_string()));
+                return Value::Object(out);
+            }
+        }
+    } else {
+        let req: CompileReq = match serde_json::from_value(raw) {
+            Ok(r) => r,
+            Err(e) => return json!({"tag": tag, "outcome": "bad_request", "message": e.to_string()}),
+        };
+        let (res, font) = compile(&req);
+        out.insert("outcome".into(), json!(res.outcome));
+        out.insert("message".into(), json!(res.message));
+        out.insert("wall_ms".into(), json!(res.wall_ms as u64));
+        match font {
+            Some(b) => b,
+            None => return Value::Object(out),
+        }
+    };
+    // reading the font back is also wrapped: a panic in the reader is data, not a harness crash
+    match std::panic::catch_unwind(|| project_font(&bytes)) {
+        Ok(Ok(m)) => out.extend(m),
+        Ok(Err(e)) => {
+            out.insert("outcome".into(), json!("unreadable"));
+            out.insert("message".into(), json!(e));
+        }
+        Err(p) => {
+            out.insert("outcome".into(), json!("unreadable"));
+            out.insert("message".into(), json!(format!("reader panic: {}", panic_message(p))));
+        }
+    }
+    Value::Object(out)
+}
+
+pub fn run(args: &[String]) -> i32 {
+    if std::env::var("VH_PANIC_VERBOSE").is_err() {
+        std::panic::set_hook(Box::new(|_| {}));
+    }
+    let reader: Box<dyn BufRead> = match args.first() {
+        Some(path) => match std::fs::File::open(path) {
+            Ok(f) => Box::new(std::io::BufReader::new(f)),
+            Err(e) => {
+                eprintln!("cannot open {path}: {e}");
+                return 2;
+            }
+        },
+        None => Box::new(std::io::BufReader::new(std::io::stdin())),
+    };
+    let stdout = std::io::stdout();
+    for line in reader.lines() {
+        let Ok(line) = line else { break };
+        if line.trim().is_empty() {
+            continue;
+        }
+        let v = handle(&line);
+        let mut out = stdout.lock();
+        let _ = writeln!(out, "{v}");
+        let _ = out.flush();
+    }
+    0
 }
